@@ -1,0 +1,8 @@
+//go:build !verif
+
+// Package verifhook provides scheduling hooks for the runtime-verification harness. Without the
+// `verif` build tag every hook is an empty function that the compiler inlines away.
+package verifhook
+
+// Yield marks a point between two critical sections. No-op in normal builds.
+func Yield(point string) {}
